@@ -339,8 +339,8 @@ theorem ahoCorasickAttrs_keys (O : Oracles) (r : Rec) :
     rcases h with h | h | h <;> simp [h]
   · simp at h
 
-theorem matchPatternAttrs_keys (O : Oracles) (pattern name : String) (e : Int) (indel : Bool) (r : Rec) :
-    ∀ kv ∈ matchPatternAttrs O pattern name e indel r,
+theorem matchPatternAttrs_keys (O : Oracles) (pattern name : String) (e : Int) (indel both : Bool) (r : Rec) :
+    ∀ kv ∈ matchPatternAttrs O pattern name e indel both r,
       kv.1 ∈ [(patternSlots name).1, (patternSlots name).2.1, (patternSlots name).2.2.1, (patternSlots name).2.2.2] := by
   intro kv h
   unfold matchPatternAttrs at h
@@ -349,9 +349,36 @@ theorem matchPatternAttrs_keys (O : Oracles) (pattern name : String) (e : Int) (
   · simp only [List.mem_cons, List.not_mem_nil, or_false] at h
     rcases h with h | h | h | h <;> simp [h]
   · split at h
-    · simp only [List.mem_cons, List.not_mem_nil, or_false] at h
-      rcases h with h | h | h | h <;> simp [h]
+    · split at h
+      · simp only [List.mem_cons, List.not_mem_nil, or_false] at h
+        rcases h with h | h | h | h <;> simp [h]
+      · simp at h
     · simp at h
+
+theorem lcaAttrs_keys (slot : String) (v : LcaVerdict) :
+    ∀ kv ∈ lcaAttrs slot v,
+      kv.1 ∈ ["merged_taxid", (lcaSlots slot).1, (lcaSlots slot).2.1, (lcaSlots slot).2.2] := by
+  intro kv h
+  unfold lcaAttrs at h
+  simp only [List.mem_append, List.mem_cons, List.not_mem_nil, or_false] at h
+  rcases h with h | h | h | h
+  · split at h
+    · simp only [List.mem_cons, List.not_mem_nil, or_false] at h; simp [h]
+    · simp at h
+  · simp [h]
+  · simp [h]
+  · simp [h]
+
+theorem addLCA_keeps {α : Type} (obs : Rec → α) (O : Oracles) (slot err : String)
+    (hobs : ∀ k ∈ ["merged_taxid", (lcaSlots slot).1, (lcaSlots slot).2.1, (lcaSlots slot).2.2], ∀ v,
+      Keeps obs (setAttribute k v)) : Keeps obs (addLCA O slot err) := by
+  intro r r' h
+  unfold addLCA at h
+  split at h
+  · simp at h
+  · rename_i v _
+    exact foldl_bind_keeps obs (lcaAttrs slot v) (fun kv => setAttribute kv.1 kv.2)
+      (fun kv hkv => hobs kv.1 (lcaAttrs_keys slot v kv hkv) kv.2) r r' h
 
 theorem addTaxonAtRank_keeps {α : Type} (obs : Rec → α) (O : Oracles) (ranks : List String)
     (hobs : ∀ rank ∈ ranks, ∀ k ∈ [rank ++ "_taxid", rank ++ "_name"], ∀ v, Keeps obs (setAttribute k v)) :
@@ -372,6 +399,14 @@ theorem mem_libraryKeys_rank (o : AnnotOpts) (rank : String) (h : rank ∈ o.tax
   intro k hk
   unfold libraryKeys
   simp only [List.mem_append, List.mem_flatMap]
-  exact Or.inl (Or.inl (Or.inl (Or.inl (Or.inl ⟨rank, h, hk⟩))))
+  exact Or.inl (Or.inl (Or.inl (Or.inl (Or.inl (Or.inl ⟨rank, h, hk⟩)))))
+
+theorem mem_libraryKeys_lca (o : AnnotOpts) (h : o.lcaSlot ≠ "") :
+    ∀ k ∈ ["merged_taxid", (lcaSlots o.lcaSlot).1, (lcaSlots o.lcaSlot).2.1, (lcaSlots o.lcaSlot).2.2],
+      k ∈ libraryKeys o := by
+  intro k hk
+  unfold libraryKeys
+  simp only [h, ne_eq, not_false_eq_true, if_true, List.mem_append]
+  exact Or.inl (Or.inl (Or.inr hk))
 
 end ObiVerif.Annotate
